@@ -143,7 +143,28 @@ def i_normal(F, res):
     if imp and imp[0]["derived"]:
         res.add([ok("I-NORMAL", key, "crates/tx3-tir/src/model/assets.rs", "PartialEq is derived (structural): the normal-form rule above is what makes it semantic")])
     elif imp:
-        res.add([assumption("I-NORMAL", key, "crates/tx3-tir/src/model/assets.rs", "PartialEq is hand-written: whether it ignores zero entries is value-level and not decided")])
+        # hand-written equality: it must not depend on the iteration order of the two hash maps (each has its own random
+        # hasher): walking both side by side (`a.iter().eq(b.iter())`, `zip`, collecting into Vecs) compares "same content in the
+        # same order", and a + b == b + a stops holding for values built independently
+        from .. import e6_hash as e6
+        eqf = [f_ for f_ in F.fns.values() if f_.get("impl_trait") == "std::cmp::PartialEq" and f_.get("impl_self") == CA and f_.get("name") in ("eq", "ne") and not is_derive(f_)]
+        ordered = []
+        for f_ in eqf:
+            fi = mir.inline_calls(F, f_, want=_asset_helpers, depth=2)
+            for b_ in with_closures(F, fi):
+                for bi, t in mir.calls(b_):
+                    h = e6.is_hash_iter(t)
+                    if h and not site_in_derive(t.get("exp", "")):
+                        kind, why = e6.classify(b_, bi)
+                        if kind != "neutral":
+                            ordered.append((b_, t["line"], why))
+                    if (t.get("callee") or "") in ("std::iter::Iterator::eq", "std::iter::Iterator::zip", "std::iter::Iterator::cmp", "std::iter::Iterator::partial_cmp", "std::iter::Iterator::ne", "std::iter::Iterator::eq_by"):
+                        ordered.append((b_, t["line"], "`%s` walks two iterations side by side" % t["callee"].split("::")[-1]))
+        if ordered:
+            b_, line, why = ordered[0]
+            res.add([finding("I-NORMAL", key, where(b_, line), "the hand-written equality of CanonicalAssets depends on the iteration order of the underlying hash maps (%s): two values with the same entries built independently compare unequal, so commutativity, associativity and the round trip fail as seen through `==`" % why)])
+        else:
+            res.add([assumption("I-NORMAL", key, "crates/tx3-tir/src/model/assets.rs", "PartialEq is hand-written (no order-dependent walk over the maps found): whether it ignores zero entries is value-level and not decided")])
     else:
         res.add([finding("I-NORMAL", key, "crates/tx3-tir/src/model/assets.rs", "CanonicalAssets has no PartialEq")])
 
